@@ -34,6 +34,10 @@ pub enum Req {
     Import(u8),
     Drop(u8),
     Flush,
+    /// set_download_policy / register_useful_peer: store mutations that need the document to exist (not to be open)
+    /// and fail otherwise
+    SetPolicy(u8),
+    RegisterPeer(u8),
 }
 
 #[derive(Serialize, Deserialize, Clone, Debug)]
@@ -42,6 +46,9 @@ pub struct Seq {
     /// documents imported before the history starts (bit mask over 3 slots)
     pub preimport: u8,
     pub reqs: Vec<Req>,
+    /// compare state and contents with the model only at the end (the observing reads commit the open transaction)
+    #[serde(default)]
+    pub sparse_observe: bool,
 }
 
 /// Requests of the concurrent variant: one document, no subscribers.
@@ -132,9 +139,11 @@ impl Prop for C14 {
             2 => d().prop_map(Req::Import),
             1 => d().prop_map(Req::Drop),
             1 => Just(Req::Flush),
+            1 => d().prop_map(Req::SetPolicy),
+            1 => d().prop_map(Req::RegisterPeer),
         ];
-        let seq = (prop::bool::weighted(0.2), prop_oneof![3 => Just(7u8), 1 => 0u8..8], vec(req, 1..=max))
-            .prop_map(|(file, preimport, reqs)| Case::Sequential(Seq { file, preimport, reqs }));
+        let seq = (prop::bool::weighted(0.2), prop_oneof![3 => Just(7u8), 2 => 0u8..8], vec(req, 1..=max), prop::bool::weighted(0.4))
+            .prop_map(|(file, preimport, reqs, sparse_observe)| Case::Sequential(Seq { file, preimport, reqs, sparse_observe }));
         let creq = || {
             prop_oneof![
                 3 => any::<bool>().prop_map(CReq::Open),
@@ -157,6 +166,9 @@ impl Prop for C14 {
         let r = match c {
             Case::Sequential(c) => {
                 o.class(if c.file { "file" } else { "memory" });
+                if c.sparse_observe {
+                    o.class("observed-only-at-the-end");
+                }
                 run(ctx, c, &mut o)
             }
             Case::Concurrent { pre, a, b } => concurrent(ctx, pre, a, b, &mut o),
@@ -485,11 +497,30 @@ fn run(ctx: &mut Ctx, c: &Seq, o: &mut Outcome) -> R<()> {
                 Req::Flush => {
                     es(h.flush_store().await)?;
                 }
+                Req::SetPolicy(d) | Req::RegisterPeer(d) => {
+                    let du = *d as usize;
+                    let res = if matches!(r, Req::SetPolicy(_)) {
+                        h.set_download_policy(ids[du], iroh_docs::store::DownloadPolicy::default()).await
+                    } else {
+                        h.register_useful_peer(ids[du], [i as u8; 32]).await
+                    };
+                    if res.is_ok() != docs[du].exists {
+                        o.fail("C14/settings-need-the-document", format!("{what}: ok={} but document exists={}", res.is_ok(), docs[du].exists));
+                        break;
+                    }
+                    if res.is_err() {
+                        failed_request = true;
+                        o.class("failing-store-mutation");
+                    }
+                }
             }
             if failed_request && docs.iter().zip(before.iter()).any(|(a, b)| a.entries != b.entries || a.handles != b.handles || a.sync != b.sync || a.subs != b.subs) {
                 return Err("harness bug: model changed on a failed request".into());
             }
             o.count("requests_checked_against_model", 1);
+            if c.sparse_observe && i + 1 != c.reqs.len() {
+                continue;
+            }
             observe(&h, &ids, &docs, o, &what).await?;
             if o.failed() {
                 break;
